@@ -64,6 +64,7 @@ def _update_progset(asd_vals, mapping, progset):
     #             baseline - par,pop
     #             outcome - par,pop,program
     # - progset : ProgramSet to modify, should have only one time
+    modified_covouts = dict()
     for x, target in zip(asd_vals, mapping):
         if target[0] == "unit_cost":
             assert len(progset.programs[target[1]].unit_cost.vals) == 1
@@ -72,9 +73,21 @@ def _update_progset(asd_vals, mapping, progset):
             assert len(progset.programs[target[1]].capacity_constraint.vals) == 1
             progset.programs[target[1]].capacity_constraint.vals[0] = x
         elif target[0] == "baseline":
-            progset.covouts[(target[1], target[2])].baseline = x
+            covout = progset.covouts[(target[1], target[2])]
+            # Interaction outcomes are cached relative to the baseline, whereas the values entered in the program book are absolute
+            for combo in covout._interactions:
+                covout._interactions[combo] += covout.baseline - x
+            covout.baseline = x
+            modified_covouts[(target[1], target[2])] = covout
         elif target[0] == "outcome":
-            progset.covouts[(target[1], target[2])].progs[target[3]] = x
+            covout = progset.covouts[(target[1], target[2])]
+            covout.progs[target[3]] = x
+            modified_covouts[(target[1], target[2])] = covout
+
+    # The Covout caches the sorted outcomes, deltas and combination outcomes, so they must be refreshed
+    # otherwise get_outcome() continues to use the values from before the change
+    for covout in modified_covouts.values():
+        covout.update_outcomes()
 
 
 def _prepare_bounds(progset, unit_cost_bounds, baseline_bounds, capacity_bounds, outcome_bounds):
